@@ -271,6 +271,39 @@ def regex_lengths(regexes: gio.RegexTable, word) -> list:
     return out
 
 
+def regex_partial(regexes: gio.RegexTable, word) -> list:
+    """[[regexId, cell]] for every cell at which `Terminal.check(word[cell:], incomplete=True)` holds, computed with the
+    `regex` module directly (partial matching; independent of fandango), with `Terminal.check`'s coercions.  The
+    matched length must be the whole rest of the input (the model relies on it): anything else is `NotModelled`."""
+    import regex as regex_mod
+    out = []
+    for rid, pat in enumerate(regexes.patterns):
+        for w in range(len(word) + 1):
+            chunk = word[w:]
+            if isinstance(pat, bytes) and isinstance(chunk, bytes):
+                p, c = pat, chunk
+            else:
+                p = pat if isinstance(pat, str) else pat.decode("latin-1")
+                c = chunk if isinstance(chunk, str) else chunk.decode("latin-1")
+            try:
+                compiled = regex_mod.compile(p)
+            except Exception:  # noqa
+                continue
+            got = None
+            m = compiled.match(c, partial=True)
+            if m is not None and (m.partial or m.end() == len(c)):
+                got = len(m.group(0))
+            else:
+                m = compiled.fullmatch(c, partial=True)
+                if m is not None and (m.partial or m.end() == len(c)):
+                    got = len(m.group(0))
+            if got is not None:
+                if got != len(c):
+                    raise gio.NotModelled("partial regex match shorter than the rest of the input")
+                out.append([rid, w])
+    return out
+
+
 # ------------------------------------------------------------------------------------------------
 # the worker
 # ------------------------------------------------------------------------------------------------
@@ -341,6 +374,22 @@ def observe_tree(tree, word, start: str) -> dict:
     return o
 
 
+def pred_record(cols: list, namer: "Namer") -> list:
+    """[[column, nt, [[sym..]..]]]: the order in which `predict` added the alternatives (first call per column and symbol)"""
+    seen = set()
+    pred = []
+    for col, lst in _Reg.pred:
+        if not lst:
+            continue
+        k = next((i for i, c in enumerate(cols) if c is col), None)
+        key = (k, lst[0].nonterminal.name())
+        if k is None or key in seen:
+            continue
+        seen.add(key)
+        pred.append([k, namer.nt(lst[0].nonterminal), [namer.rhs(s.symbols) for s in lst]])
+    return pred
+
+
 def real_case(task: dict) -> dict:
     """task: {"spec": text, "word": {"kind","cells"}, "start": "<start>", "cap_s": float, "max_trees": int}"""
     from harness.common import use_repo
@@ -408,18 +457,7 @@ def real_case(task: dict) -> dict:
         # (for a run stopped by the step meter: the chart as far as it got, for the lock-step prefix comparison)
         try:
             res["cols"] = [[namer.state(s) for s in c.states if not s.is_incomplete] for c in cols]
-            seen = set()
-            pred = []
-            for col, lst in _Reg.pred:
-                if not lst:
-                    continue
-                k = next((i for i, c in enumerate(cols) if c is col), None)
-                key = (k, lst[0].nonterminal.name())
-                if k is None or key in seen:
-                    continue
-                seen.add(key)
-                pred.append([k, namer.nt(lst[0].nonterminal), [namer.rhs(s.symbols) for s in lst]])
-            res["pred"] = pred
+            res["pred"] = pred_record(cols, namer)
             res["forest"] = [gio.tree_to_json(t) for t in trees]
             res["out"] = [observe_tree(t, word, start) for t in trees]
         except gio.NotModelled as e:
@@ -444,6 +482,23 @@ def other_modes(task: dict, word, start: str) -> dict:
         except Exception as e:  # noqa
             out[name] = f"spec_error:{type(e).__name__}"
             continue
+        rec: Optional[dict] = None
+        namer = None
+        ptrees: list = []
+        if name == "prefix":
+            # the record for the model of prefix mode (Model/EarleyPrefix.lean): a grammar object of its own, so its
+            # IR (node ids), regex table and oracles are taken from THIS object
+            try:
+                gj, regexes = gio.grammar_to_json(grammar)
+                ip = grammar._parser._iter_parser
+                if ip._context_rules:
+                    raise gio.NotModelled("computed repetition")
+                namer = Namer(ip, regexes)
+                rec = {"grammar": gj, "rlen": regex_lengths(regexes, word), "rinc": regex_partial(regexes, word),
+                       "rules": canonical_rules(ip, namer)}
+            except gio.NotModelled as e:
+                rec = {"not_modelled": str(e)}
+                namer = None
         _reset()
         _Reg.limit = task.get("step_limit")
         old = signal.signal(signal.SIGALRM, on_alarm)
@@ -457,6 +512,7 @@ def other_modes(task: dict, word, start: str) -> dict:
                 else:
                     for _t in grammar.parse_forest(word, start=start, mode=ParsingMode.INCOMPLETE):
                         n += 1
+                        ptrees.append(_t)
                         if n >= int(task.get("max_trees", 64)):
                             st = "truncated"
                             break
@@ -474,8 +530,49 @@ def other_modes(task: dict, word, start: str) -> dict:
         out[name + "_adds"] = _Reg.adds
         out[name + "_steps"] = _Reg.adds + _Reg.completes
         out[name + "_trees"] = n
+        if name == "prefix" and rec is not None:
+            if namer is not None and (st in ("ok", "truncated", "steplimit") or st.startswith("exc:")):
+                try:
+                    cols = _Reg.cols
+                    last = len(cols) - 1
+                    # per column the admitted states; the incomplete ones (last column) carry their flag
+                    rec["cols"] = [[namer.state(s) + ([bool(s.is_incomplete)] if (k == last or s.is_incomplete) else [])
+                                    for s in c.states] for k, c in enumerate(cols)]
+                    rec["pred"] = pred_record(cols, namer)
+                    rec["forest"] = [gio.tree_to_json(t) for t in ptrees]
+                    rec["out"] = [observe_partial(t, word) for t in ptrees]
+                except gio.NotModelled as e:
+                    rec = {"not_modelled": str(e)}
+            out["prefix_rec"] = rec
     _reset()
     return out
+
+
+def observe_partial(tree, word) -> dict:
+    """per-output observations on a real partial tree (C04, prefix mode): the leaves spell the whole input; no helper
+    symbols; (validity of the partial derivation is judged by the model side)"""
+    o: dict[str, Any] = {"root": tree.symbol.name() if tree.symbol.is_non_terminal else None,
+                         "helpers": _helper_symbols(tree)[:3]}
+    try:
+        if isinstance(word, bytes):
+            o["value_ok"] = bytes(tree) == word
+        else:
+            o["value_ok"] = str(tree) == word
+    except Exception as e:  # noqa
+        o["value_ok"] = False
+        o["value_exc"] = type(e).__name__
+    return o
+
+
+def prefix_request(rec: dict, task: dict, variant: dict, fuel: int, max_trees: int, stop_trees: int = 0) -> dict:
+    """the model request for the recorded prefix run; `stop_trees` = n: the real generator was abandoned after its
+    n-th tree (`max_trees`), the model stops at the same point (its chart is then compared as it is there)"""
+    wj = task["word"]
+    return {"op": "prefix", "stop_trees": stop_trees, "grammar": rec["grammar"], "variant": dict(variant), "start": task.get("start", "<start>"),
+            "fuel": fuel, "max_trees": max_trees,
+            "input": {"bytes": wj["kind"] == "bytes", "cells": wj["cells"], "rlen": rec.get("rlen", []),
+                      "rinc": rec.get("rinc", [])},
+            "pred": rec.get("pred", [])}
 
 
 # ------------------------------------------------------------------------------------------------
